@@ -137,7 +137,7 @@ inductive Fr
   | setupK (a : SetupArgs) (p : Proto)
   | playK | recordK | pauseK
   | redescK (a : SetupArgs)               -- doSetup: the re-DESCRIBE of the TCP switch is running
-  | resetK (n : AfterReset)               -- reset → doClose: TEARDOWN's `do` is running
+  | resetK (n : AfterReset) (saved : Bool) -- reset → doClose: TEARDOWN's `do` is running (saved: mustClose before it)
   deriving DecidableEq, Repr, Inhabited
 
 inductive Out
@@ -292,7 +292,10 @@ def afterReset (s0 : St) (n : AfterReset) (k : List Fr) (retK : St → Val → S
 
 def resetStart (c : Cfg) (s : St) (n : AfterReset) (k : List Fr) (retK : St → Val → St) : St :=
   if s.conn && s.baseUrl then
-    startDo s .teardown true 0 [.resetK n] k (fun s _ => afterReset s n k retK) (fun s => afterReset s n k retK)
+    -- the TEARDOWN is a courtesy: whatever happens to it, mustClose is put back
+    startDo s .teardown true 0 [.resetK n s.mustClose] k
+      (fun s' _ => afterReset { s' with mustClose := s.mustClose } n k retK)
+      (fun s' => afterReset { s' with mustClose := s.mustClose } n k retK)
   else afterReset s n k retK
 
 /-- undo of doPlay / doRecord when the request fails -/
@@ -393,10 +396,13 @@ def handOver (s : St) (r : Res) : St :=
   | some a => emit { s with stack := [], pending := none } (.ret a r)
   | none => { s with stack := [] }
 
-/-- back in runInner: hand the result to the caller; leave the loop when mustClose is set -/
+/-- back in runInner: hand the result to the caller; leave the loop when mustClose is set, or (next
+iteration of the select) when the context is cancelled -/
 def deliver (s : St) (v : Val) : St :=
   let s1 := handOver s (valRes v)
-  if s1.mustClose then runExit s1 (valRes v) else s1
+  if s1.mustClose then runExit s1 (valRes v)
+  else if s1.ctxDone then runExit s1 (some .terminated)
+  else s1
 
 /-- Return value `v` to the frame `f` whose callers are `k`; `retK` returns to `k`. -/
 def frameRet (c : Cfg) (f : Fr) (k : List Fr) (retK : St → Val → St) (s : St) (v : Val) : St :=
@@ -451,7 +457,7 @@ def frameRet (c : Cfg) (f : Fr) (k : List Fr) (retK : St → Val → St) (s : St
     match v with
     | .err e => retK s (.err e)
     | _ => setupStart c s a k retK
-  | .resetK n => afterReset s n k retK
+  | .resetK n saved => afterReset { s with mustClose := saved } n k retK
 
 /-- unwind: return `v` into the stack `k` (structural recursion on the stack) -/
 def resume (c : Cfg) : List Fr → St → Val → St
